@@ -658,9 +658,10 @@ def build_jobs(ctx):
         else:
             if len(data) <= 40000:
                 offs = list(range(0, len(data) + 1))
-            else:       # every byte of the lines the scanner interprets, every 5th elsewhere
-                offs = key_line_offsets(data, 5, rng)
-            poffs = list(range(rng.randrange(64), len(data), 64)) + [len(data)]
+            else:       # every byte of the lines the scanner interprets, every 11th elsewhere
+                offs = key_line_offsets(data, 11, rng)
+            pstride = 64 if len(data) <= 40000 else 256
+            poffs = list(range(rng.randrange(pstride), len(data), pstride)) + [len(data)]
             offs = sorted(set(offs) | set(poffs))
         jobs.append((wdir, name.replace('.', '_'), data, offs, poffs, watchdog))
         ctx.count('example_listings')
@@ -674,7 +675,7 @@ def build_jobs(ctx):
         poffs = sorted(rng.sample(offs, min(25 if quick else 600, len(offs)))) + [len(data)]
         jobs.append((wdir, name, data, offs, poffs, watchdog))
         ctx.count('edition_variant_listings')
-    nsyn = 40 if quick else 400
+    nsyn = 40 if quick else 300
     for idx in range(nsyn):
         name, data = synth_scanner_listing(rng, idx)
         offs = list(range(0, len(data) + 1))
@@ -762,7 +763,13 @@ def oracle_and_cases(ctx, job, out, sfx):
                                    f'previous line boundary (a partial line was interpreted) :: {where}',
                                    case, key='partial-line-interpreted')
             # (2) every stored block / time is the one of the complete listing
-            for key, dig in pdig:
+            #     (nothing to compare with when the complete listing itself is unusable)
+            if 'exc' in full:
+                ctx.count('complete_listing_unusable')
+                pdig_cmp, times_cmp = [], []
+            else:
+                pdig_cmp, times_cmp = pdig, obs['times']
+            for key, dig in pdig_cmp:
                 if fcoll.get(key) == dig:
                     continue
                 if key in rep_blocks:
@@ -771,7 +778,7 @@ def oracle_and_cases(ctx, job, out, sfx):
                 ctx.oracle_failure(f'block of batch {key} differs from the block of the complete '
                                    f'listing (or does not exist there) :: {where}', case,
                                    key='block-differs')
-            for flag, bnum, tim in obs['times']:
+            for flag, bnum, tim in times_cmp:
                 if (flag, bnum) in ftimes and ftimes[(flag, bnum)] == tim:
                     continue
                 if (flag, bnum) in rep_times:
